@@ -34,7 +34,7 @@ def run(ctx):
         jobs["sched:" + c] = ex.submit(ctx.tlc, "Sema", cfg="Sema_%s.cfg" % c, workers=4 if th else 2,
                                        name="gen_" + c, timeout=3000, heap="4g" if th else "2g")
     jobs["sim:schedS"] = ex.submit(ctx.tlc, "Sema", cfg="Sema_schedS.cfg", workers=4 if th else 2, name="gen_schedS", heap="2g",
-                                   simulate="num=%d" % (6000 if th else 200), depth=100, deadlock=False,
+                                   simulate="num=%d" % (2500 if th else 200), depth=100, deadlock=False,
                                    extra=["-seed", str(ctx.seed)], timeout=3000)
     for c in (["design_quick", "design"] if th else ["design_quick"]):
         jobs["design:" + c] = ex.submit(ctx.tlc, "Sema", cfg="Sema_%s.cfg" % c, workers=8 if th else 3,
@@ -55,9 +55,10 @@ def run(ctx):
             if not ss:
                 raise verif.MachineryError("TLC produced no schedules for %s, see %s" % (c, r["dir"]))
             nsched[c] = len(ss)
-            if not th and kind == "sched" and len(ss) > 1200:
+            cap = 30000 if th else 1200
+            if kind == "sched" and len(ss) > cap:
                 import random
-                ss = random.Random(ctx.seed).sample(ss, 1200)   # quick tier: seeded sample of the exhaustive set
+                ss = random.Random(ctx.seed).sample(ss, cap)   # seeded sample of the exhaustive set
                 nsched[c + "_replayed"] = len(ss)
             for s in ss:
                 fh.write(json.dumps({"src": c, "k": kk, "n": nn, "sched": list(s)}) + "\n")
